@@ -191,6 +191,28 @@ func genES(r *rand.Rand, c *Case) {
 	}
 }
 
+// a newline-delimited body whose lines cross the size threshold of onEntries: a few lines of 250-400 kB each
+func genNDBig(r *rand.Rand, c *Case) {
+	c.Class = "big-lines"
+	th := envInt("C03_THRESHOLD", 1<<20)
+	n := 4 + r.Intn(3)
+	if c.Proto == "ddcf" {
+		c.Body.NDCtx = "cloudflare"
+		for i := 0; i < n; i++ {
+			o := jO(kv("EventTimestampMs", jN(strconv.FormatInt(genTs(r, 0)/1000000, 10))), kv("ScriptName", jS(fmt.Sprintf("w%d", i%2))),
+				kv("Logs", jA(jS(strings.Repeat("x", th/4+r.Intn(th/8))))), kv("Outcome", jS("ok")))
+			c.Body.ND = append(c.Body.ND, NDLine{Doc: &o})
+		}
+		return
+	}
+	c.Body.NDCtx = "idx"
+	for i := 0; i < n; i++ {
+		a := jO(kv("index", jO(kv("_id", jS(strconv.Itoa(i%2))))))
+		d := jO(kv("n", jN(strconv.Itoa(i))), kv("message", jS(strings.Repeat("y", th/4+r.Intn(th/8)))))
+		c.Body.ND = append(c.Body.ND, NDLine{Doc: &a}, NDLine{Doc: &d})
+	}
+}
+
 // the body: the lines joined by \n (or \r\n: bufio.ScanLines drops the \r), with or without a final line end
 func ndWire(c *Case, r *rand.Rand) []byte {
 	eol := "\n"
